@@ -117,8 +117,8 @@ func (q *Queue) Add(elem *queue.Elem) (err error) {
 		drop = true
 
 		// drop expired inflight message
-		if v := q.l.Front(); v != q.current &&
-			v != nil &&
+		if v := q.l.Front(); v != nil &&
+			v.Value.(*queue.Elem).ID() != 0 &&
 			queue.ElemExpiry(now, v.Value.(*queue.Elem)) {
 			dropElem = v
 			dropErr = queue.ErrDropExpiredInflight
